@@ -24,6 +24,7 @@ From Coq Require Import ZArith List Bool Reals Lra Permutation.
 From Coquelicot Require Import Coquelicot.
 From BZ Require Import Base.Ops Gen.Point Gen.Affine Gen.Line Gen.Quad Gen.Cubic Hand.Shoelace Proofs.C10 Proofs.C10pos Proofs.C10shapes Hand.Shapes Gen.Shapes Proofs.Bridge Proofs.C10float Base.FloatErr Proofs.C01float.
 Import ListNotations.
+From BZ Require Gen.PathOps Proofs.Bridge5.
 From BZ Require Hand.Sample Proofs.C04 Proofs.C16 Proofs.C17 Proofs.C10flat Proofs.C10flat2.
 Open Scope R_scope.
 
@@ -292,6 +293,18 @@ Proof. exact @C10flat2.quad_flatten_area_error. Qed.
 Theorem C10_cubic_short_chord_area_error :
   forall (cap : nat) (c : seg4 R) (d : R), 0 < d -> Cubic_length ROps c < d -> exists es : list Sample.edge, Sample.Cubic_flatten ROps cap c d = Sample.Ok es /\ map fst es = [{| l0 := c0 c; l1 := c3 c |}] /\ Rabs (Cubic_area ROps c - sum_line_areas (map fst es)) <= C10flat.cubic_arclen c 0 1 * C10flat.cubic_arclen c 0 1 / 4.
 Proof. exact @C10flat2.cubic_short_chord_area_error. Qed.
+Theorem C10_Path_signed_area_gen :
+  forall (T : Type) (O : Ops T) (fuel : nat) (p : list (segment T * option (segment T)) * bool), PathOps.Path_signed_area O fuel p = Bridge5.after_flatten O fuel p (signed_area_lines O).
+Proof. exact @Bridge5.Path_signed_area_gen. Qed.
+Theorem C10_Path_area_gen :
+  forall (T : Type) (O : Ops T) (fuel : nat) (p : list (segment T * option (segment T)) * bool), PathOps.Path_area O fuel p = Bridge5.after_flatten O fuel p (area_lines O).
+Proof. exact @Bridge5.Path_area_gen. Qed.
+Theorem C10_Path_direction_gen :
+  forall (T : Type) (O : Ops T) (fuel : nat) (p : list (segment T * option (segment T)) * bool), PathOps.Path_direction O fuel p = Bridge5.after_flatten O fuel p (direction_lines O).
+Proof. exact @Bridge5.Path_direction_gen. Qed.
+Theorem C10_signed_area_hand :
+  forall (T : Type) (O : Ops T), Bridge2.lit_ok O -> forall (cap : nat) (segs : list (segment T * option (segment T))) (closed : bool) (fuel : nat) (k : list (seg2 T) -> T), eqb O (ofZ O 8) (Sample.zero O) = false -> List.Forall (Bridge5.flatten_ok O cap fuel (ofZ O 8)) segs -> Bridge2.res_of (Bridge5.after_flatten O fuel (segs, closed) k) = Sample.bind (Sample.path_flatten O cap segs closed (ofZ O 8)) (fun f : list Sample.edge * bool => Sample.Ok (k (Bridge5.lines_of f))).
+Proof. exact @Bridge5.signed_area_hand. Qed.
 
 Print Assumptions C10_area_is_integral_line.
 Print Assumptions C10_area_is_integral_quad.
@@ -381,3 +394,7 @@ Print Assumptions C10_quad_flatten_edges_are_chords.
 Print Assumptions C10_cubic_flatten_area_error.
 Print Assumptions C10_quad_flatten_area_error.
 Print Assumptions C10_cubic_short_chord_area_error.
+Print Assumptions C10_Path_signed_area_gen.
+Print Assumptions C10_Path_area_gen.
+Print Assumptions C10_Path_direction_gen.
+Print Assumptions C10_signed_area_hand.
